@@ -797,13 +797,13 @@ class Emitter:
             ct = s.ctype(ety)
             if isinstance(args[0], ConstInt) and esz and args[0].v % esz == 0:
                 k_ = args[0].v // esz
-                if k_ == 1: w('  %s = (uint8_t*)malloc(sizeof(%s)); rt_new_note(%s);' % (res, ct, res))
-                else: w('  %s = (uint8_t*)malloc(sizeof(%s) * %d); rt_new_note(%s);' % (res, ct, k_, res))
+                if k_ == 1: w('  %s = (uint8_t*)malloc(sizeof(%s)); rt_new_note(%s, %s);' % (res, ct, res, s.val(args[0])))
+                else: w('  %s = (uint8_t*)malloc(sizeof(%s) * %d); rt_new_note(%s, %s);' % (res, ct, k_, res, s.val(args[0])))
             elif isinstance(args[0], ConstInt) and esz and args[0].v > esz and args[0].v < 2 * esz:
                 # one T followed by a few trailing bytes (stack_storage's "heap allocated" flag byte behind a coroutine frame)
-                w('  %s = (uint8_t*)malloc(sizeof(struct { %s a_; uint8_t pad_[%d]; })); rt_new_note(%s);' % (res, ct, args[0].v - esz, res))
+                w('  %s = (uint8_t*)malloc(sizeof(struct { %s a_; uint8_t pad_[%d]; })); rt_new_note(%s, %s);' % (res, ct, args[0].v - esz, res, s.val(args[0])))
             elif esz:
-                w('  %s = (uint8_t*)malloc(sizeof(%s) * (%s / %d)); rt_new_note(%s);' % (res, ct, s.val(args[0]), esz, res))
+                w('  %s = (uint8_t*)malloc(sizeof(%s) * (%s / %d)); rt_new_note(%s, %s);' % (res, ct, s.val(args[0]), esz, res, s.val(args[0])))
             done = True
         if not done:
             fty = FuncT(I.ty, tuple(a.ty for a in args), False)
